@@ -94,7 +94,7 @@ def _work(args):
         else:
             if not any(v.isupper() and not M.fixed_name(v, guard) and len(v) > 1 for v in names):
                 continue
-            mapping = M.macro_capitals_renaming(rnd, names, guard)
+            mapping = M.macro_capitals_renaming(rnd, names, guard, src=src)
             pairs = sorted(mapping.items())
         changed = [(a, b) for a, b in pairs if a != b]
         src2 = M.apply_renaming(src, toks, mapping)
